@@ -127,10 +127,7 @@ theorem lift_opCcs (L : LeavesA R) (s : St) (ver : Nat) : R s (opCcs s ver).1 :=
   obtain ⟨s2, ev1⟩ := r2
   simp only at h2 ⊢
   split
-  · have h3 := L.addSubConn s2
-    generalize Pool.addSubConn s2 = r3 at h3 ⊢
-    obtain ⟨s3, ok, ev2⟩ := r3
-    exact L.trans (L.trans (L.trans h0 h1) h2) h3
+  · exact L.trans (L.trans (L.trans h0 h1) h2) (lift_enforce L s2 _ _)
   · exact L.trans (L.trans h0 h1) h2
 
 theorem lift_getLeastBusy (L : LeavesA R) (s : St) (c : Cfg) (l : List Slot) : R s (getLeastBusy s c l).1 := by
